@@ -497,7 +497,7 @@ func TestC19(t *testing.T) {
 	if ev.Replay(t, rec, "workload", runCase) || ev.Replay(t, rec, "inflight", runFlight) || ev.Replay(t, rec, "rejected", runRejected) {
 		return
 	}
-	ev.Check(t, rec, "workload", rec.Pick(30, 600), genCase, runCase)
-	ev.Check(t, rec, "inflight", rec.Pick(30, 1000), genFlight, runFlight)
-	ev.Check(t, rec, "rejected", rec.Pick(24, 1500), genRejected, runRejected)
+	ev.Check(t, rec, "workload", rec.Pick(30, 400), genCase, runCase)
+	ev.Check(t, rec, "inflight", rec.Pick(30, 700), genFlight, runFlight)
+	ev.Check(t, rec, "rejected", rec.Pick(24, 640), genRejected, runRejected)
 }
